@@ -17,6 +17,14 @@ from vlib.refs import sphere_match as R
 DECS = [0.0, 30.0, -30.0, 60.0, -60.0, 80.0, -80.0, 85.0, -85.0, 88.0, -88.0, 89.5, -89.5]
 DECLIM = 90.0 - 1e-9
 RA_TOP = math.nextafter(360.0, 0.0)
+# exact boundary values of RA: the ends of [0, 360) and the values that become exactly 360.0 when one of the six trial
+# offsets (0, 60, ..., 300) of chunks.rarange is added.  RA = 360.0 itself is outside the property's domain; class ra360
+# only checks that the call says the same as for RA 0.0 (which the unchanged code does).
+BOUNDARY_RA = [0.0, RA_TOP, 60.0, 120.0, 180.0, 240.0, 300.0]
+BOUNDARY_CLASSES = ('allsky', 'polar', 'rings')          # already all around the sky: moving one point changes no grid size
+# dense class: number of positions in ONE chunk, around implementation-typical block sizes
+DENSE_SIZES = [2 ** k + d for k in (8, 9, 10) for d in (-1, 0, 1)] + [640, 768, 900, 1100]
+DENSE_QUICK = [640, 1025, 513, 257, 768, 511]
 CS_FACT = [0.5, 2.0, 4.0, 4.0, 4.5, 8.0, 32.0, 64.0]
 LAT_N = 300 + 2300 + 12650           # placements of 2, 3, 4 points on 25 sites
 LAT_SITES = ('corner', 'seam', 'dec89')
@@ -96,13 +104,15 @@ class C05(Check):
             'process, so that what a call leaves behind is seen by the next call.  Class flavours: whole-degree lattice '
             'positions handed over as int64/int32/int16/unsigned, float32, big-endian, strided, reversed-view and read-only '
             'arrays (RA only, Dec only, both), judged by the same oracle (band max(1e-5 rel, 3e-3 deg) when numpy converts the '
-            'argument to radians in float32), arguments compared bytewise afterwards.  Non-trivial: >= 1 group of >= 2 members whose members have '
+            'argument to radians in float32), arguments compared bytewise afterwards.  Class dense: 255-1100 positions (2**k, 2**k +- 1) '
+            'of scrambled filaments in ONE chunk.  Exact boundary RAs (0.0, nextafter(360,0), 60..300) injected into 30 % of the '
+            'all-around classes; class ra360: a seam member written as 360.0 must be grouped as when written 0.0.  Non-trivial: >= 1 group of >= 2 members whose members have '
             'different home chunks; distinct by hash of the materialised case.')
     ASSUMPTIONS = ['separations from a long-double chord formula; a case is undecided only if linking or not linking the '
                    'pairs within max(1e-9 relative, 1e-11 deg) of L changes the partition',
                    'the mutual consistency of the four arrays is checked on every case, decided or not',
                    'the order in which next[] visits the members of a group is not prescribed by the property']
-    REQUIRED_COUNTERS = ('flavour_calls', 'flavour_int_calls', 'flavour_single_precision_calls', 'flavour_layout_calls',
+    REQUIRED_COUNTERS = ('dense_cases', 'dense_cases_above_512_in_one_chunk', 'boundary_ra_points', 'ra360_calls', 'flavour_calls', 'flavour_int_calls', 'flavour_single_precision_calls', 'flavour_layout_calls',
                          'flavour_args_unchanged_checks', 'flavour_multi_member_groups', 'canary_sequences', 'canary_inputs_judged', 'equal_ra_cases', 'equal_dec_cases', 'groups_spanning_chunks', 'undecided_cases', 'band_pairs_harmless', 'replicated_points', 'chunk_fof_calls', 'perm_variants',
                          'chunksize_variants', 'enforced_minimum_chunksize', 'near_threshold_links', 'seam_cases',
                          'polar_slice_cases', 'multi_member_groups', 'lattice_cases')
@@ -177,6 +187,8 @@ class C05(Check):
             'lattice': 900 if q else LAT_TOTAL,
             'canary_inputs': len(CANARIES),
             'flavours': 400 if q else 8000,
+            'dense': len(DENSE_QUICK) if q else 4 * len(DENSE_SIZES),
+            'ra360': 60 if q else 1500,
             'degenerate': 240 if q else 5000,
         }
 
@@ -209,10 +221,10 @@ class C05(Check):
         rng.shuffle(idx)
         return [ra[j] for j in idx], [dec[j] for j in idx]
 
-    def _link_factor(self, rng, gap_p=0.12):
+    def _link_factor(self, rng, gap_p=0.12, in_band=True):
         """separation of consecutive chain members in units of L"""
         r = rng.random()
-        if r < 0.003:
+        if r < 0.003 and in_band:
             return 1.0 + rng.choice([-1.0, 1.0]) * 1e-10        # inside the ambiguity band on purpose
         if r < gap_p:
             return rng.choice([rng.uniform(1.001, 1.5), 1.0 + 10.0 ** -rng.choice([2, 3, 4, 5, 6, 7])])
@@ -229,7 +241,72 @@ class C05(Check):
         case['cls'] = cls
         if 'variants' not in case:
             self._variants(rng, case, case.get('cs_floor', 0.0))
+        if cls in BOUNDARY_CLASSES and rng.random() < 0.3:         # drawn last: everything above is unchanged by this
+            case['ra'][rng.randrange(len(case['ra']))] = rng.choice(BOUNDARY_RA)
         return case
+
+    def gen_dense(self, rng, nr, i):
+        """a crowded field in ONE chunk (explicit chunk size much larger than the field): n = 2**k, 2**k +- 1 (k = 8..10) and
+        a few sizes in between, made of short filaments (links 0.5-0.999 L) and singletons, listed in scrambled order"""
+        n = DENSE_QUICK[i % len(DENSE_QUICK)] if self.tier == 'quick' else DENSE_SIZES[i % len(DENSE_SIZES)]
+        rad = 0.4
+        L = 0.35 * rad / math.sqrt(n)
+        dec0 = rng.choice([-20.0, 0.0, 35.0])
+        ra0 = rng.choice([77.7, 140.3, 210.0, 301.0])       # away from RA 0: a seam through the field would split the chunk
+        c0 = math.cos(math.radians(dec0))
+        ra, dec = [], []
+        while len(ra) < n:
+            rr, th = rad * math.sqrt(rng.random()), rng.uniform(0, 2 * math.pi)
+            a, d = R.wrap360(ra0 + rr * math.cos(th) / c0), dec0 + rr * math.sin(th)
+            ra.append(a)
+            dec.append(d)
+            if rng.random() < 0.75:
+                b = rng.uniform(0, 360)
+                for _ in range(rng.randint(1, 7)):
+                    if len(ra) >= n:
+                        break
+                    b += rng.uniform(-40, 40)
+                    a, d = R.destination(a, d, b, self._link_factor(rng, 0.05, in_band=False) * L)
+                    ra.append(a)
+                    dec.append(d)
+        ra, dec = self._shuffle(rng, ra, dec)
+        case = {'L': L, 'cs': rng.choice([10.0, 30.0]), 'ra': ra, 'dec': dec}
+        case['variants'] = [{'p': rng.getrandbits(32), 'cs': case['cs']}] if n <= 700 else []
+        return case
+
+    def gen_ra360(self, rng, nr, i):
+        """a catalogue for which no RA offset is accepted (all-sky scatter, or a cap reaching the pole) with a chain across
+        RA 0/360 one member of which sits exactly on the seam: grouped with that member written as RA 0.0 (judged by the
+        oracle) and again as RA 360.0 (must give the very same four arrays)"""
+        kind = rng.choice(['allsky', 'allsky', 'cap', 'seam_cluster'])
+        L = log_uniform(rng, 0.2, 2.0)
+        if kind == 'allsky':
+            n = rng.randint(30, 90)
+            ra = nr.uniform(0, 360, n).tolist()
+            dec = np.clip(np.degrees(np.arcsin(nr.uniform(-1, 1, n))), -DECLIM, DECLIM).tolist()
+            dec0 = rng.uniform(-50, 50)
+        elif kind == 'cap':
+            sgn = rng.choice([1.0, -1.0])
+            n = rng.randint(10, 40)
+            ra = [rng.uniform(0, 360) for _ in range(n)]
+            dec = [sgn * clipdec(90.0 - L * rng.uniform(0, 8)) for _ in range(n)]
+            dec0 = sgn * (90.0 - L * rng.uniform(2, 6))
+        else:
+            dec0 = rng.uniform(-60, 60)
+            ra, dec = cluster(nr, rng.randint(4, 20), 0.0, dec0, L * 4)
+        # the chain through the seam at Dec dec0: ..., -2, -1, 0, +1, +2 steps of f*L due E-W, the middle one exactly on RA 0
+        w = R.ew_width(rng.uniform(0.6, 0.95) * L, dec0) or 1.0
+        idx = []
+        for q in range(-rng.randint(1, 3), rng.randint(1, 3) + 1):
+            if q == 0:
+                idx.append(len(ra))
+            ra.append(R.wrap360(q * w) if q else 0.0)
+            dec.append(dec0)
+        order = list(range(len(ra)))
+        rng.shuffle(order)
+        pos = {old: new for new, old in enumerate(order)}
+        return {'L': L, 'cs': self._pick_cs(rng, L, 1.0), 'ra': [ra[j] for j in order], 'dec': [dec[j] for j in order],
+                'ra360': [pos[j] for j in idx], 'kind': kind, 'cs_floor': 1.0}
 
     def gen_chains(self, rng, nr, i):
         L = log_uniform(rng, 1e-3, 4.0)
@@ -665,6 +742,24 @@ class C05(Check):
                 self._judge(out, res, p, n, sure if decided else None, tag, case, Sf, L)
         if case.get('flavours'):
             self._run_flavours(case, out, S, Sf, L)
+        if case.get('ra360'):
+            # outside the stated domain (RA in [0, 360)): only "says the same as for RA 0.0", as the unchanged code does
+            ra_b = ra.copy()
+            ra_b[case['ra360']] = 360.0
+            r0 = self.SG.spheregroup(ra.copy(), dec.copy(), L, chunksize=case['cs'])
+            r1 = self.SG.spheregroup(ra_b, dec.copy(), L, chunksize=case['cs'])
+            out.count('ra360_calls')
+            same = all(np.array_equal(np.asarray(x), np.asarray(y)) for x, y in zip(r0, r1))
+            out.expect(same, 'ra360-same-as-0', 'positions %s written as RA 360.0 instead of 0.0 are grouped differently (cs=%r)'
+                       % (case['ra360'], case['cs']), ingroup_ra0=r0[0], ingroup_ra360=r1[0])
+        if case.get('cls') == 'dense':
+            c = self._chunk
+            pop = max((len(cell) for row in c.chunkList for cell in row), default=0) if c is not None else 0
+            out.count('dense_cases')
+            out.info['dense_max_chunk_population'] = pop
+            if pop > 512:
+                out.count('dense_cases_above_512_in_one_chunk')
+        out.count('boundary_ra_points', int(np.isin(ra, BOUNDARY_RA).sum()))
         out.nontrivial = span >= 1
         out.info.update({'n': n, 'groups': int(len(sizes)), 'largest_group': int(sizes.max()), 'band_pairs': nband,
                          'decided': bool(decided), 'groups_spanning_chunks': span})
